@@ -94,6 +94,33 @@ pub fn origins_with_twins(lines: &[Value], max: usize) -> Vec<Origin> {
             origins.push(t);
         }
     }
+    // decimal variant: weights 0.3 k - partial sums of such weights land one ulp away from other table values
+    for i in 0..origins.len().min(8) {
+        let o = origins[i].clone();
+        if o.key.contains('~') || o.edges.len() < 2 { continue; }
+        let mut t = o.clone();
+        for (e, w) in t.weights.iter_mut().enumerate() { *w = 0.3 * (1 + (e * 7 + i) % 6) as f64 + if t.d > 2 { 0.3 * (t.d as f64) } else { 0.0 }; }
+        t.key = format!("{}~decimal", o.key);
+        origins.push(t);
+        // ... and the plain ladder 0.3, 0.6, 0.9, ... (kept only when the sampler builds)
+        for shift in 0..2 {
+            let mut t2 = o.clone();
+            for (e, w) in t2.weights.iter_mut().enumerate() { *w = 0.3 * (1 + (e + shift) % 4) as f64; }
+            t2.key = format!("{}~ladder{}", o.key, shift);
+            origins.push(t2);
+        }
+    }
+    // fixed one-loop polygons with the decimal ladder 0.3, 0.6, 0.9, ... (partial sums one ulp apart, e.g. 0.3 + 0.6)
+    for n in 3..=5usize {
+        for d in [3usize, 2] {
+            let w: Vec<f64> = (0..n).map(|e| 0.3 * (1 + e) as f64).collect();
+            origins.push(Origin {
+                edges: (0..n).map(|e| (e as u8, ((e + 1) % n) as u8)).collect(), mass: vec![false; n], weights: w,
+                ext: (0..n as u8).collect(), d, sig: vec![vec![1]; n], m: vec![0.0; n],
+                p: (0..n).map(|e| (0..d).map(|c| ((e + c) % 3) as f64).collect()).collect(),
+                key: format!("polygon{}d{}~ladder", n, d) });
+        }
+    }
     // forest variant: the edges of a spanning forest get weight 1e-10 (they close no loop, so the graph can stay
     // convergent), the chords a weight above D/2: J values of order (1e10)^(number of forest edges)
     for i in 0..origins.len().min(10) {
